@@ -3,7 +3,7 @@
    site's ghost hook, then the guarantee (INV re-established).  *.inc are generated from /repo on every run. */
 #include "verif.h"
 
-#ifdef SRW
+#if defined(SRW) || defined(RWM)
 typedef intptr_t state_type;
 #define WRITER ((state_type)1)
 #define WRITER_PENDING ((state_type)2)
@@ -32,7 +32,17 @@ static void interfere(void) {
 #define ATOMIC_FETCH_OR_AT(site, f, d) RG_SITE(site, state_type, ((f) = old_ | (d), old_))
 #define ATOMIC_FETCH_AND_AT(site, f, d) RG_SITE(site, state_type, ((f) = old_ & (d), old_))
 #define PLAIN_READ(f) (f)
+#define ATOMIC_AND_FETCH_AT(site, f, d) RG_SITE(site, state_type, ((f) = old_ & (d), (f)))
+#define ATOMIC_ADD_FETCH_AT(site, f, d) RG_SITE(site, state_type, ((f) = old_ + (d), (f)))
 #define NOG ((void)0)
+#define IDLE (!meW && !meU && !meR && !meT)
+#define LOOPI(cond) __CPROVER_assigns(m_state, gW, gU, gR, gT, meW, meU, meR, meT) __CPROVER_loop_invariant(INV && BOUND && (cond))
+#define PRE(c) do { m_state = nondet_intptr_t(); gW = nondet_ulong(); gU = nondet_ulong(); gR = nondet_ulong(); gT = nondet_ulong(); \
+    meW = nondet_bool(); meU = nondet_bool(); meR = nondet_bool(); meT = nondet_bool(); __CPROVER_assume(INV && BOUND && (c)); } while (0)
+state_type IN_state;
+#endif
+
+#ifdef SRW
 #define GHOST_lock_1 NOG
 #define GHOST_lock_2 if (r_) { gW++; meW = true; }
 #define GHOST_lock_3 NOG
@@ -51,17 +61,12 @@ static void interfere(void) {
 #define GHOST_upgrade_3 NOG
 #define GHOST_upgrade_4 { gU--; gR--; gW++; meU = false; meR = false; meW = true; }
 #define GHOST_downgrade_1 { gW--; gR++; meW = false; meR = true; }
-#define IDLE (!meW && !meU && !meR && !meT)
-#define LOOPI(cond) __CPROVER_assigns(m_state, gW, gU, gR, gT, meW, meU, meR, meT) __CPROVER_loop_invariant(INV && BOUND && (cond))
 #define LOOP_lock_1 LOOPI(IDLE)
 #define LOOP_lock_shared_1 LOOPI(IDLE)
 #define LOOP_upgrade_1 __CPROVER_assigns(m_state, gW, gU, gR, gT, meW, meU, meR, meT, s) __CPROVER_loop_invariant(INV && BOUND && !meW && !meU && meR && !meT)
 #define LOOP_upgrade_2 LOOPI(!meW && meU && meR && !meT)
 void spin_rw_mutex_lock(void); void spin_rw_mutex_unlock_shared(void);
 #include "srw.inc"
-#define PRE(c) do { m_state = nondet_intptr_t(); gW = nondet_ulong(); gU = nondet_ulong(); gR = nondet_ulong(); gT = nondet_ulong(); \
-    meW = nondet_bool(); meU = nondet_bool(); meR = nondet_bool(); meT = nondet_bool(); __CPROVER_assume(INV && BOUND && (c)); } while (0)
-state_type IN_state;
 void h_srw_lock(void) { PRE(IDLE); IN_state = m_state; spin_rw_mutex_lock(); interfere(); OBLIGATION(meW && gW == 1 && gR == 0 && gU == 0, "C08.srw: after lock() this thread is the only writer and there is no reader"); VACUITY_END(); }
 void h_srw_try_lock(void) { PRE(IDLE); IN_state = m_state; bool ok = spin_rw_mutex_try_lock(); interfere(); OBLIGATION(ok ? (meW && gW == 1 && gR == 0 && gU == 0) : IDLE, "C08.srw: try_lock is truthful: true iff it took the exclusive lock, and it holds nothing otherwise"); VACUITY_END(); }
 void h_srw_unlock(void) { PRE(meW && !meU && !meR && !meT); IN_state = m_state; spin_rw_mutex_unlock(); OBLIGATION(IDLE, "C08.srw: unlock releases the writer"); VACUITY_END(); }
@@ -73,6 +78,41 @@ void h_srw_upgrade(void) { PRE(!meW && !meU && meR && !meT); IN_state = m_state;
     OBLIGATION(meW && !meR && !meU && gW == 1 && gR == 0, "C08.srw: after upgrade() this thread is the only writer, no reader remains"); VACUITY_END(); }
 void h_srw_downgrade(void) { PRE(meW && !meU && !meR && !meT); IN_state = m_state; spin_rw_mutex_downgrade(); interfere(); OBLIGATION(meR && !meW && gW == 0, "C08.srw: downgrade goes writer->reader in one step: still holding, no writer slipped in"); VACUITY_END(); }
 #endif
+
+#ifdef RWM
+/* rw_mutex: same word layout and census; readers also back off on WRITER_PENDING; unlock keeps WRITER_PENDING */
+#define HASW (WRITER | WRITER_PENDING)
+#define GHOST_lock_1 NOG
+#define GHOST_lock_2 NOG
+#define GHOST_try_lock_1 NOG
+#define GHOST_try_lock_2 if (r_) { gW++; meW = true; }
+#define GHOST_unlock_1 { gW--; meW = false; }
+#define GHOST_try_lock_shared_1 NOG
+#define GHOST_try_lock_shared_2 if (!(r_ & HASW)) { gR++; meR = true; } else { gT++; meT = true; }
+#define GHOST_try_lock_shared_3 { gT--; meT = false; }
+#define GHOST_unlock_shared_1 { gR--; meR = false; }
+#define GHOST_upgrade_1 NOG
+#define GHOST_upgrade_2 if (r_) { gU++; meU = true; }
+#define GHOST_upgrade_3 NOG
+#define GHOST_upgrade_4 { gU--; gR--; gW++; meU = false; meR = false; meW = true; }
+#define GHOST_downgrade_2 { gW--; gR++; meW = false; meR = true; }
+#define GHOST_downgrade_3 NOG
+#define LOOP_lock_1 LOOPI(IDLE)
+#define LOOP_lock_shared_1 LOOPI(IDLE)
+#define LOOP_upgrade_1 __CPROVER_assigns(m_state, gW, gU, gR, gT, meW, meU, meR, meT, s) __CPROVER_loop_invariant(INV && BOUND && !meW && !meU && meR && !meT)
+#define LOOP_upgrade_2 LOOPI(!meW && meU && meR && !meT)
+bool rw_mutex_try_lock(void); bool rw_mutex_try_lock_shared(void); void rw_mutex_unlock_shared(void); void rw_mutex_lock(void);
+#include "rwm.inc"
+void h_rwm_lock(void) { PRE(IDLE); IN_state = m_state; rw_mutex_lock(); interfere(); OBLIGATION(meW && gW == 1 && gR == 0 && gU == 0, "C08.rw_mutex: after lock() this thread is the only writer and there is no reader"); VACUITY_END(); }
+void h_rwm_try_lock(void) { PRE(IDLE); IN_state = m_state; bool ok = rw_mutex_try_lock(); interfere(); OBLIGATION(ok ? (meW && gW == 1 && gR == 0 && gU == 0) : IDLE, "C08.rw_mutex: try_lock is truthful and holds nothing when it fails"); VACUITY_END(); }
+void h_rwm_unlock(void) { PRE(meW && !meU && !meR && !meT); IN_state = m_state; rw_mutex_unlock(); OBLIGATION(IDLE, "C08.rw_mutex: unlock releases the writer"); VACUITY_END(); }
+void h_rwm_lock_shared(void) { PRE(IDLE); IN_state = m_state; rw_mutex_lock_shared(); interfere(); OBLIGATION(meR && gW == 0 && !meT, "C08.rw_mutex: after lock_shared() this thread is a reader and there is no writer"); VACUITY_END(); }
+void h_rwm_try_lock_shared(void) { PRE(IDLE); IN_state = m_state; bool ok = rw_mutex_try_lock_shared(); interfere(); OBLIGATION(ok ? (meR && gW == 0 && !meT) : IDLE, "C08.rw_mutex: try_lock_shared is truthful"); VACUITY_END(); }
+void h_rwm_unlock_shared(void) { PRE(!meW && !meU && meR && !meT); IN_state = m_state; rw_mutex_unlock_shared(); OBLIGATION(IDLE, "C08.rw_mutex: unlock_shared releases the reader"); VACUITY_END(); }
+void h_rwm_upgrade(void) { PRE(!meW && !meU && meR && !meT); IN_state = m_state; bool ok = rw_mutex_upgrade(); interfere(); OBLIGATION(meW && !meR && !meU && gW == 1 && gR == 0, "C08.rw_mutex: after upgrade() this thread is the only writer, no reader remains"); VACUITY_END(); }
+void h_rwm_downgrade(void) { PRE(meW && !meU && !meR && !meT); IN_state = m_state; rw_mutex_downgrade(); interfere(); OBLIGATION(meR && !meW && gW == 0, "C08.rw_mutex: downgrade goes writer->reader in one step"); VACUITY_END(); }
+#endif
+
 
 #ifdef SM
 bool m_flag; unsigned long gH; bool meH;
